@@ -10,38 +10,43 @@ pub struct AtomicDuration(AtomicUsize);
 
 impl AtomicDuration {
     pub fn new(dur: Option<Duration>) -> Self {
-        let dur = match dur {
-            None => 0,
-            Some(d) => d.as_millis() as usize,
-        };
+        AtomicDuration(AtomicUsize::new(Self::encode(dur)))
+    }
 
-        AtomicDuration(AtomicUsize::new(dur))
+    // 0 is none, or else the duration in ms rounded up plus one,
+    // so that Some(0) and sub-millisecond durations are not taken as none
+    // and a timeout never fires before the requested duration
+    #[inline]
+    fn encode(dur: Option<Duration>) -> usize {
+        // the longest timeout we keep (about 292 years), its ns still fit in u64
+        const MAX_MS: u128 = (u64::MAX / 2_000_000) as u128;
+        match dur {
+            None => 0,
+            Some(d) => d.as_nanos().div_ceil(1_000_000).min(MAX_MS) as usize + 1,
+        }
+    }
+
+    #[inline]
+    fn decode(v: usize) -> Option<Duration> {
+        match v {
+            0 => None,
+            d => Some(Duration::from_millis(d as u64 - 1)),
+        }
     }
 
     #[inline]
     #[cfg(feature = "io_timeout")]
     pub fn get(&self) -> Option<Duration> {
-        match self.0.load(Ordering::Relaxed) {
-            0 => None,
-            d => Some(Duration::from_millis(d as u64)),
-        }
+        Self::decode(self.0.load(Ordering::Relaxed))
     }
 
     #[inline]
     pub fn store(&self, dur: Option<Duration>) {
-        let timeout = match dur {
-            None => 0,
-            Some(d) => d.as_millis() as usize,
-        };
-
-        self.0.store(timeout, Ordering::Relaxed);
+        self.0.store(Self::encode(dur), Ordering::Relaxed);
     }
 
     #[inline]
     pub fn take(&self) -> Option<Duration> {
-        match self.0.swap(0, Ordering::Relaxed) {
-            0 => None,
-            d => Some(Duration::from_millis(d as u64)),
-        }
+        Self::decode(self.0.swap(0, Ordering::Relaxed))
     }
 }
